@@ -144,6 +144,9 @@ func runC07(rec *vk.Rec, ci int) {
 				}
 			}
 			payload := fmt.Sprintf("m%d", seq)
+			if r.Chance(15) { // a large, incompressible body
+				payload += "|" + string(r.Bytes(r.Range(4200, 20000)))
+			}
 			topic := keys[kp] + "/" + chanStr(lv)
 			if ttl > 0 {
 				topic += fmt.Sprintf("?ttl=%d", ttl)
